@@ -402,6 +402,28 @@ impl<Endpoint: Ord + Clone> BlockHandler<Endpoint> {
     }
 }
 
+/// Read-only view of the state cached for a request's key, for the
+/// verification harness only (compiled with `--cfg coap_lite_verif`). Does
+/// not touch the entry's timestamp.
+#[cfg(coap_lite_verif)]
+impl<Endpoint: Ord + Clone> BlockHandler<Endpoint> {
+    #[allow(clippy::type_complexity)]
+    pub fn verif_peek_state(
+        &self,
+        request: &CoapRequest<Endpoint>,
+    ) -> Option<(Option<BlockValue>, Option<Packet>, Option<Vec<u8>>)> {
+        self.states
+            .peek(&RequestCacheKey::from(request))
+            .map(|state| {
+                (
+                    state.last_request_block2.clone(),
+                    state.cached_response.clone(),
+                    state.cached_request_payload.clone(),
+                )
+            })
+    }
+}
+
 /// Similar to [`Vec::splice`] except that the Vec's length may be extended to
 /// support the splice, but only up to an increase of `maximum_reserve_len`
 /// (for security reasons if the data you're receiving is untrusted ensure this
